@@ -44,6 +44,10 @@ CLAIMED['C13'] = dict(
    text='The list-of-records model named by the property is written in Coq (IndexModel.v) with theorems (no axioms) for every model value: refused operations change nothing, accepted appends respect the format limits, concatenation = list append with additive totals, iteration visits every Block exactly once in order, locate is sound and complete. The real lzma_index API is run against the extracted model on random operation histories (sizes from the whole VLI range, overflow attempts, stream flags/padding, cat, dup, prealloc 1-3 with 511/512/513/1025 records to force many tree groups, all queries, iteration in four modes, locate at every boundary +-1, encode/decode); lzma_file_info_decoder is run on generated multi-Stream padded files under five read-chunk policies, its index compared with the ground truth, every Block decoded at the offsets it gives, seeks bounded by the file size; xz --list totals compared.',
    note='PARTIAL: the AVL tree / record groups and the file_info state machine are not modelled (tied by observable results only). A genuine defect found here (lzma_index_dup lost the check mask) was repaired with a fix: commit.',
    technique='Coq list model + theorems; differential history correspondence against the extracted model', ref='§6 C13')
+CLAIMED['C04'] = dict(
+   text='Coq theorems (no axioms): every index read or written by the decoder\'s circular dictionary (literal write, match copy incl. the 32-byte SIMD over-copy, wrap step) stays inside the allocation for every distance the decoder lets through, with REPEAT_MAX/INIT_POS/EXTRA/MATCH_LEN_MAX regenerated from the source; a stalled caller is told on the second call and internal codes never surface (lzma_code model, tied by C11\'s exhaustive table). Memory safety, UB, assertions, leaks, hangs of the C text are explored: ASan+UBSan build with assertions enabled over every decoding/parsing entry point (stream, threaded stream incl. input ending mid-Block with slow/fast consumers, auto, .lzma, .lz, raw, stream_buffer, Block Header, Stream Header/Footer, filter flags, properties, Index, VLI, filter strings, file_info) on valid/mutated/truncated/random inputs x flags x slicings x memory limits, LeakSanitizer, watchdog, idle-call counter, documented-return-code check.',
+   note='PARTIAL by nature: out-of-bounds/uninitialised/UB/leak/deadlock freedom of the C text cannot be proved with a Gallina model; only the index arithmetic and the calling protocol are. A genuine defect found (assertion in lzma_stream_buffer_decode on truncated input) was repaired with a fix: commit.',
+   technique='Coq proof of dictionary index bounds + sanitizer exploration of all entry points', ref='§6 C04')
 REASONS_PENDING = 'not yet built in this round (work in progress; see DESIGN.md §10 order of work)'
 props = [json.loads(l) for l in open(os.path.join(V, 'properties.jsonl'))]
 checks, na = [], []
